@@ -1,6 +1,7 @@
 import Generated.Trans
 import Model.Do
 import Props.C04
+import Props.C10
 /-
 Tie obligations for C04 / C10 (and the closing clauses of C11): `Generated/Trans.lean` holds `(*Client).Close`, `IsClosed`,
 `flush`, `cancelQuery`, the cancel-watch goroutine of `Do` and what `Do` does after `g.Wait()` failed, translated statement by
@@ -270,3 +271,15 @@ theorem tie_C04_translated_machine (connErr : Bool) (acts : List SendAct) (pkts 
   rw [doTransRun_eq connErr sched _ h0] at hd he ⊢
   rw [doTransFinish_eq]
   exact C04_closed_or_at_boundary acts pkts sched hd he
+
+
+/-- **C10 for the machine built from the translated code**: after the caller's cancellation (`.env`), draining the three
+goroutines ends the call (`allDone`), and if it failed without a server exception the client is closed -/
+theorem tie_C10_translated_machine_cancel (connErr : Bool) (acts : List SendAct) (pkts : List SrvPkt) (sched : List Tid)
+    (n : Nat) (hn : senderLen ((sched ++ [Tid.env]).foldl (doTransStep connErr) (init acts pkts)) ≤ n) :
+    let s := (sched ++ [Tid.env] ++ drain n).foldl (doTransStep connErr) (init acts pkts)
+    s.allDone = true ∧ (s.err = true → s.gotExc = false → (doTransFinish connErr s).closed = true) := by
+  have h0 : WatchInv (init acts pkts) := by intro h; simp [init] at h
+  rw [doTransRun_eq connErr _ _ h0] at hn
+  simp only [doTransRun_eq connErr _ _ h0, doTransFinish_eq]
+  exact C10_cancel_returns_closed acts pkts sched n hn
